@@ -1,10 +1,12 @@
-(* Extraction for C12 (mode "index") and C14 (mode "geti"): the trie model plus
+(* Extraction for C12 (mode "index"), C13 (mode "trie": node view + lookups of
+   each of the 16 option combinations) and C14 (mode "geti"): the trie model plus
    the typed getters and the SlimIndex model.  ExtrOcamlBasic only. *)
 From Coq Require Import Extraction ExtrOcamlBasic.
 From Slim Require Import Base Keys Model Encoders GetInt Index.
 Extraction Language OCaml.
 Extraction "miscx.ml"
   GetInt.byte_of_N GetInt.byte_to_N N.of_nat N.to_nat
-  Model.normalize Model.build Model.get Model.getid Model.rangeget
+  Model.normalize Model.build Model.get Model.getid Model.rangeget Model.search Model.searchid
+  Model.node_views Model.tree_id
   GetInt.geti GetInt.get_then_decode GetInt.z_be8
   Index.index_build Index.index_get Index.index_rangeget Index.table_reader Index.lookup Index.off_of_le_bytes.
